@@ -71,6 +71,8 @@ struct Runner {
             }
         }
         if (a != b && !a.empty() && !b.empty()) nontrivial++;
+        for (const std::string *x : {&a, &b}) for (char ch : *x) if ((unsigned char)ch >= 0x80) { ctx.label("bytes>=0x80"); goto labelled; }
+        labelled:;
         if (!a.empty() && !b.empty()) {
             auto cls = [](unsigned char c) { return isalpha(c) ? 0 : isdigit(c) ? 1 : 2; };
             if (cls((unsigned char)a[0]) != cls((unsigned char)b[0])) ctx.label("mixed-class-first-characters");
@@ -120,10 +122,10 @@ rc::Gen<std::string> gen_runs() {
         std::string s;
         long nruns = *range(1, 5);
         for (long r = 0; r < nruns; r++) {
-            int cls = (int)*range(0, 2);
+            int cls = (int)*range(0, 9); cls = cls < 9 ? cls % 3 : 3;   // one run in ten is made of bytes >= 0x80 and control characters (laws only)
             static const long lens[] = {1, 2, 3, 5, 9, 10, 11, 19, 20, 126, 127, 128, 129, 130, 300, 5000};
             long len = *range(0, 9) < 7 ? *range(1, 5) : *rc::gen::elementOf(std::vector<long>(lens, lens + 16));
-            std::string alpha = cls == 0 ? "abzRC" : cls == 1 ? "0129" : ".-_+~ ";
+            std::string alpha = cls == 0 ? "abzRC" : cls == 1 ? "0129" : cls == 2 ? ".-_+~ " : std::string("\x80" "\xff" "\xe9" "\x01" "\xb2");
             char first = *rc::gen::elementOf(alpha);
             bool uniform = *range(0, 1) == 0;
             for (long i = 0; i < len; i++) s.push_back(uniform ? first : *rc::gen::elementOf(alpha));
